@@ -114,7 +114,7 @@ func handleLRange(params internal.HandlerFuncParams) ([]byte, error) {
 	}
 	// If end is < 0, calculate it from the end of the list
 	if end < 0 {
-		end = len(list) - end
+		end = len(list) + end
 	}
 	// If end is past the last element of the list, set it to the last element of the list
 	if end >= len(list) {
